@@ -1,4 +1,6 @@
 // Codec operations on the eleven blob types plus zlib_uncompress.
+#include <atomic>
+#include <thread>
 #include <functional>
 
 #include <zlib.h>
@@ -453,6 +455,49 @@ bool dispatch_codec(State& st, const std::string& op, const json& a, json& ret)
             out.push_back(std::move(r));
         }
         ret = out;
+        return true;
+    }
+    if (op == "mt_codec")
+    {
+        // {"lists": [[{"kind": K, "blob": hex}, ...], ...], "rounds": r}: every thread decodes and re-encodes its own list of
+        // valid blobs at the same time as the others (race-detector build); the re-encoded bytes come back per thread.
+        const auto& lists = a.at("lists");
+        size_t nt = lists.size();
+        int rounds = a.value("rounds", 1);
+        std::vector<json> outs(nt);
+        std::atomic<int> ready{0};
+        std::vector<std::thread> threads;
+        for (size_t t = 0; t < nt; ++t)
+            threads.emplace_back([&, t] {
+                t_shim_bypass = true;
+                std::vector<std::pair<const Codec*, std::vector<std::byte>>> work;
+                for (auto& it : lists[t])
+                {
+                    auto f = codecs().find(it.at("kind").get<std::string>());
+                    if (f == codecs().end()) continue;
+                    work.emplace_back(&f->second, exact_copy(js(it.at("blob"))));
+                }
+                ++ready;
+                while (ready.load() < (int)nt) std::this_thread::yield();
+                json out = json::array();
+                for (int r = 0; r < rounds; ++r)
+                    for (auto& [c, in] : work)
+                    {
+                        std::string res;
+                        try
+                        {
+                            res = hex_of(c->reencode(in));
+                        }
+                        catch (const std::exception& e)
+                        {
+                            res = std::string("exc:") + e.what();
+                        }
+                        if (r == rounds - 1) out.push_back(res);
+                    }
+                outs[t] = std::move(out);
+            });
+        for (auto& th : threads) th.join();
+        ret = json(outs);
         return true;
     }
     if (op == "decode_many")
